@@ -56,6 +56,9 @@ def make_probe(ss):
             au = np.asarray(ppl.auids)
             if len(np.unique(au)) != len(au): self.problems.append((ti, 'duplicate active uids'))
             if len(au) and au.max() >= n: self.problems.append((ti, 'active uid outside the id space'))
+            overdue = au[(ppl.alive.raw[au]) & (ppl.ti_dead.raw[au] < ti)]
+            if len(overdue):
+                self.problems.append((ti, f'death requested at step {int(ppl.ti_dead.raw[overdue[0]])} for agent {int(overdue[0])} has still not been carried out after the death-resolution phase of step {int(ti)}'))
             self.rows.append(dict(ti=int(ti), n_uid=n, n_active=len(au), alive_active=int(np.count_nonzero(ppl.alive.raw[au])),
                                   late=int(np.count_nonzero((~ppl.alive.raw[au]) & (ppl.ti_dead.raw[au] < ti)))))
     return Book
@@ -64,7 +67,23 @@ def make_probe(ss):
 def run_level(ctx, ss):
     rng = ctx.rng
     Book = make_probe(ss)
+    class Rerequest(ss.Intervention):
+        """Requests deaths again for agents that died earlier (a second cause of death) and, late in the step, for a living one."""
+        def __init__(self, **kw):
+            super().__init__(**kw); self.gone = []
+        def step(self):
+            ppl = self.sim.people
+            if self.gone and self.ti % 2 == 0:
+                ppl.request_death(ss.uids(self.gone[:3]))
+            au = ppl.auids
+            if len(au) > 5: ppl.request_death(ss.uids([int(au[len(au) // 2])]))
+        def finish_step(self):
+            ppl = self.sim.people
+            self.gone += [int(u) for u in ppl.auids[~ppl.alive.raw[ppl.auids]]][:3]
+            super().finish_step()
     cfgs = {
+        'rerequest-deaths': lambda seed: ss.Sim(n_agents=80, diseases=ss.SIR(), networks=ss.RandomNet(), demographics=[ss.Deaths(death_rate=60)],
+                                                interventions=Rerequest(name='rerequest'), dur=10, rand_seed=seed, verbose=0),
         'births-deaths-sir': lambda seed: ss.Sim(n_agents=60, diseases=ss.SIR(p_death=0.3), networks=ss.RandomNet(),
                                                  demographics=[ss.Births(birth_rate=300), ss.Deaths(death_rate=150)], dur=12, rand_seed=seed, verbose=0),
         'pregnancy-deaths': lambda seed: ss.Sim(n_agents=120, networks=[ss.PrenatalNet(), ss.PostnatalNet()], diseases=ss.SIS(beta=dict(prenatal=0.1, postnatal=0.1)),
